@@ -185,8 +185,11 @@ def osdd_triple_devs(c1, c2, c3, values):
 def osdd_refusal_devs(c1, c2, v=1.0):
     U, sut = osdd_sut()
     devs = []
+    import numpy as np
     for name, call in (('convert', lambda: U.convert(v, sut[c1], sut[c2])),
-                       ('convert_function', lambda: U.convert_function(sut[c1], sut[c2]))):
+                       ('convert_function', lambda: U.convert_function(sut[c1], sut[c2])),
+                       ('convert_array', lambda: U.convert_array(np.array([v, 2 * v]), sut[c1], sut[c2])),
+                       ('convert_array_inplace', lambda: (lambda a: (U.convert_array_inplace(a, sut[c1], sut[c2]), a)[1])(np.array([v, 2 * v])))):
         try:
             got = call()
         except U.ExceptionUnitsDimension:
